@@ -445,7 +445,7 @@ def run(chk):
     for label, units in multi_use_layer():
         R.add(label, units, file_orders(rng, units, 1 if quick else 3))
     # 3. random DAGs (mostly legal, region-free), two file orders each
-    n_random = 320 if quick else 4000
+    n_random = 280 if quick else 4000
     for k in range(n_random):
         knobs = {"regions": rng.random() < 0.25, "p_clash": 0.3 if rng.random() < 0.15 else 0.0,
                  "p_nested": 0.6 if rng.random() < 0.4 else 0.0}
